@@ -18,6 +18,12 @@ from . import lex
 from .lex import Rule, ExtractionBreak
 
 
+def _c_name(header):
+    """name of the C function a header declares (the identifier in front of the parameter list), '' when it is not a plain identifier"""
+    mo = re.search(r'([A-Za-z_]\w*)\s*\(', header or '')
+    return mo.group(1) if mo else ''
+
+
 class Source:
     def __init__(self, root):
         self.root = root
@@ -49,7 +55,7 @@ class Unit:
         self.parts.append(ctext.rstrip() + '\n')
 
     def _post(self, body, where, rules, generic=True, ret_zero=None, loops=None, nloops=None,
-              witness='', classmap=None, may_throw=None):
+              witness='', classmap=None, may_throw=None, fname=''):
         if generic:
             for r in lex.GENERIC:
                 body = r.apply(body, where)
@@ -64,7 +70,7 @@ class Unit:
         if may_throw:
             body, _ = lex.propagate_exc(body, may_throw, ret_zero if ret_zero is not None else '')
         if nloops is not None:
-            body = lex.inject_loop_contracts(body, loops or {}, nloops)
+            body = lex.inject_loop_contracts(body, loops or {}, nloops, fname)
         return body
 
     def function(self, src, rel, sig_regex, *, new_header=None, rules=None, ret_zero=None,
@@ -91,7 +97,8 @@ class Unit:
             nloops = 0 if not loops else None
             if nloops is None:
                 raise ExtractionBreak('%s: nloops required with loop contracts' % where)
-        body = self._post(body, where, rules, generic, ret_zero, loops, nloops, witness, classmap, may_throw)
+        body = self._post(body, where, rules, generic, ret_zero, loops, nloops, witness, classmap, may_throw,
+                          fname=_c_name(new_header if new_header is not None else header))
         if body_prefix:
             body = '{' + body_prefix + body[1:]
         if new_header is None:
@@ -153,7 +160,7 @@ class Unit:
         where = '%s:%s:%s' % (rel, func_sig_regex, intro_regex)
         if nloops is None:
             nloops = 0
-        body = self._post(body, where, rules, True, ret_zero, loops, nloops, witness, classmap)
+        body = self._post(body, where, rules, True, ret_zero, loops, nloops, witness, classmap, fname=_c_name(new_header))
         out = new_header.rstrip() + '\n' + body + '\n'
         self.functions.append({'file': rel, 'cxx_header': ' '.join((func_sig_regex + ' :: ' + header).split()),
                                'c_header': ' '.join(new_header.split()),
